@@ -11,7 +11,7 @@
 namespace vfx {
 using namespace vf;
 
-struct Step { std::string op; int ev; std::vector<int> tape; };
+struct Step { std::string op; int ev; std::vector<int> tape; std::map<std::string,int> lm; bool labels = false; };
 typedef std::vector<Step> History;
 
 struct Options {
@@ -82,6 +82,7 @@ inline Exec run_history(const History& h, const Options& o, bool want_intro, std
         for (size_t i = 0; i < h.size(); ++i) {
             const Step& st = h[i];
             E.begin_op(st.tape);
+            E.use_labels = st.labels; E.labelmap = st.lm;
             E.faults = o.faults && st.op != "start" && st.op != "stop";   // C12 is about process_event
             int ret = -1; bool esc = false; std::string what;
             try {
@@ -99,7 +100,7 @@ inline Exec run_history(const History& h, const Options& o, bool want_intro, std
                 }
             }
             if (st.op == "stop") g_started = false;
-            if (E.choices.size() < st.tape.size()) throw Nondeterminism{"tape longer than the choices asked"};
+            if (!st.labels && E.choices.size() < st.tape.size()) throw Nondeterminism{"tape longer than the choices asked"};
             if (all || i + 1 == h.size()) {
                 x = Exec();
                 x.trace = E.trace; x.ret = ret; x.choices = E.choices; x.escaped = esc; x.escaped_what = what;
@@ -263,6 +264,40 @@ inline int replay(const std::string& path, const Options& o) {
     return 0;
 }
 
+// lock-step service: one request per line on stdin
+//   step|step|...   with step = op,ev,label=alt;label=alt;...
+// one reply line: trace \t ret \t canon \t label:n:chosen;... \t esc \t ledger \t pending \t started \t rootq
+inline int serve(const Options& o) {
+    std::string line;
+    while (std::getline(std::cin, line)) {
+        if (line == "QUIT") break;
+        History h;
+        if (!line.empty() && line != "-") {
+            for (auto& st : split(line, '|')) {
+                auto f = split(st, ',');
+                Step s; s.op = f[0]; s.ev = atoi(f[1].c_str()); s.labels = true;
+                if (f.size() > 2 && !f[2].empty()) for (auto& kv : split(f[2], ';')) {
+                    if (kv.empty()) continue;
+                    auto p = kv.rfind('=');
+                    s.lm[kv.substr(0, p)] = atoi(kv.substr(p + 1).c_str());
+                }
+                h.push_back(s);
+            }
+        }
+        try {
+            Exec x = run_history(h, o, o.introspect);
+            std::string ch;
+            for (auto& c : x.choices) { ch += c.label + ":" + std::to_string(c.n) + ":" + std::to_string(c.chosen) + ":" + std::string(1, c.kind) + ";"; }
+            std::cout << (x.trace.empty() ? "-" : x.trace) << "\t" << x.ret << "\t" << x.canon << "\t" << (ch.empty() ? "-" : ch) << "\t"
+                      << (x.escaped ? "ESC:" + x.escaped_what : "-") << "\t" << (x.ledger_error ? x.ledger_msg : "-") << "\t" << x.pending
+                      << "\t" << (x.started ? 1 : 0) << "\t" << x.rootq << "\t" << x.intro << std::endl;
+        } catch (Nondeterminism& n) {
+            std::cout << "NONDETERMINISM " << n.what << std::endl;
+        }
+    }
+    return 0;
+}
+
 } // namespace vfx
 
 int main(int argc, char** argv) {
@@ -298,6 +333,7 @@ int main(int argc, char** argv) {
     try {
         if (mode == "explore") return vfx::explore(o);
         if (mode == "replay") return vfx::replay(replay_path, o);
+        if (mode == "serve") return vfx::serve(o);
         if (mode == "info") { std::cout << zoo::vf_machine_name << " cfg=" << VF_CFG << " events=" << zoo::vf_nevents << " menu=" << zoo::vf_nmenu << "\n"; return 0; }
     } catch (vf::Nondeterminism& n) {
         std::cerr << "NONDETERMINISM " << n.what << "\n";
